@@ -94,6 +94,7 @@ struct Cx<'tcx> {
     impls: Vec<J>,
     traits: Vec<J>,
     fns: Vec<J>,
+    consts: Vec<J>,
     notes: Vec<J>,
 }
 
@@ -121,6 +122,7 @@ impl<'tcx> Cx<'tcx> {
             impls: vec![],
             traits: vec![],
             fns: vec![],
+            consts: vec![],
             notes: vec![],
         }
     }
@@ -134,6 +136,7 @@ impl<'tcx> Cx<'tcx> {
             ("impls", J::Arr(self.impls.clone())),
             ("traits", J::Arr(self.traits.clone())),
             ("fns", J::Arr(self.fns.clone())),
+            ("consts", J::Arr(self.consts.clone())),
             ("bodies", J::Arr(self.bodies.clone())),
             ("instances", J::Arr(self.instances.clone())),
             ("edges", J::Arr(self.edges.clone())),
@@ -158,6 +161,7 @@ impl<'tcx> Cx<'tcx> {
     fn run(&mut self) {
         self.dump_items();
         self.dump_local_bodies();
+        self.dump_consts();
         self.walk_roots();
     }
 
@@ -301,6 +305,39 @@ impl<'tcx> Cx<'tcx> {
             let j = self.dump_body(body, d, &key, None);
             self.body_ids.insert(key, self.bodies.len());
             self.bodies.push(j);
+        }
+    }
+
+    /// Named constants of the crate with the statements of their initialiser (so that `Self::IDENTITY` and the literal
+    /// `Decibels(0.0)` it stands for can be recognised as the same value).
+    fn dump_consts(&mut self) {
+        let tcx = self.tcx;
+        let owners: Vec<_> = tcx.hir_body_owners().collect();
+        for ld in owners {
+            let d = ld.to_def_id();
+            match tcx.def_kind(d) {
+                DefKind::Const { .. } | DefKind::AssocConst { .. } => {}
+                _ => continue,
+            }
+            let body = tcx.mir_for_ctfe(d);
+            let mut parts: Vec<String> = vec![];
+            let mut simple = body.basic_blocks.len() == 1;
+            for data in body.basic_blocks.iter() {
+                for st in data.statements.iter() {
+                    if let StatementKind::Assign(b) = &st.kind {
+                        parts.push(format!("{:?} = {:?}", b.0, b.1));
+                    }
+                }
+                if !matches!(data.terminator().kind, TerminatorKind::Return) {
+                    simple = false;
+                }
+            }
+            self.consts.push(J::Obj(vec![
+                ("path", J::s(self.path(d))),
+                ("ty", J::s(self.ty_s(tcx.type_of(d).instantiate_identity().skip_norm_wip()))),
+                ("simple", J::Bool(simple)),
+                ("text", J::s(parts.join("; "))),
+            ]));
         }
     }
 
